@@ -123,10 +123,18 @@ def main():
         ck.add_tlc(summ, 'simulated deep shapes keys=%d sizes=(%d,%d)' % (nk, lf, it))
         grow = [i for i, tr in enumerate(payloads) if tr['act']['op'] in ('setitem', 'insert')
                 and len(P.flatten(tr['to'])[0]) > len(P.flatten(tr['from'])[0])]
-        split = [i for i in grow if P.depth(payloads[i]['to']) > P.depth(payloads[i]['from']) or
-                 (P.nleaves(payloads[i]['to']) > P.nleaves(payloads[i]['from']) and P.depth(payloads[i]['from']) >= 3)]
+        def upper(p):
+            """interior nodes whose children are interior nodes"""
+            if p['t'] == 'L' or not p['kids']:
+                return 0
+            return (1 if p['kids'][0]['t'] == 'I' else 0) + sum(upper(c) for c in p['kids'])
+        # (first the calls that split an interior node whose children are interior nodes - BTree_split has to look into the
+        #  child at the split point, a ghost here -, deepest trees first; then the other splits)
         ck.rng.shuffle(grow)
-        ck.rng.shuffle(split)
+        hard = sorted([i for i in grow if upper(payloads[i]['to']) > upper(payloads[i]['from']) and P.depth(payloads[i]['from']) >= 2],
+                      key=lambda i: -P.depth(payloads[i]['from']))
+        other = [i for i in grow if P.nleaves(payloads[i]['to']) > P.nleaves(payloads[i]['from']) and i not in set(hard)]
+        split = hard[:(40 if quick else 400)] + other
         deep.append((fn, grow, split, nk, lf, it))
     # 2. fault enumeration on the real C code (hook build), every allocation index of every selected call;
     #    then again on the sanitizer build
@@ -165,7 +173,7 @@ def main():
             ck.add_traces(res['counts']['faults'] + res['counts']['partb_faults'])
             for mm in res['mismatches']:
                 ck.violation('%s %s %s build sizes=%s: %s, failing allocation %s of %s: %s' % (
-                    mm['fam'], 'set' if mm['is_set'] else 'map', flavour, mm['sizes'], mm.get('op', json.dumps(mm['act'])),
+                    mm['fam'], 'set' if mm['is_set'] else 'map', flavour, mm['sizes'], mm.get('op') or json.dumps(mm.get('act')),
                     mm.get('fail_at'), mm.get('allocations'), mm['kind']), dict(mm, build=flavour))
         if plan:
             ck.sample(dict(kind='oom job', build=flavour, job={k: v for k, v in plan[0].items() if k != 'indices'}, transitions=len(plan[0]['indices'])))
